@@ -44,7 +44,7 @@ PROF = gen.profile(
 
 
 def plan(tier):
-    return [{"name": "main", "examples": 5000 if tier == "quick" else 150000}]
+    return [{"name": "main", "examples": 10000 if tier == "quick" else 150000}]
 
 
 @st.composite
